@@ -623,3 +623,140 @@ Proof.
   unfold load_render, plan_desired. destruct (validate_manifest c); [discriminate|].
   destruct (selected_targets c filt); [|discriminate]. intros H. split; [reflexivity|exact H].
 Qed.
+
+(* ---------- validate_manifest does not depend on the order of the module list ---------- *)
+
+Definition module_checks (m : module) : bool :=
+  negb (mtype_eqb (m_type m) TSkill &&
+        match split_once 58 (m_id m) with Some (_, name) => negb (safe_skill_name name) | None => false end) &&
+  forallb (fun t => mem_str t compiled_targets) (m_targets m).
+
+Lemma mem_str_cons_false a b l : mem_str a (b :: l) = false <-> a <> b /\ mem_str a l = false.
+Proof.
+  simpl. rewrite orb_false_iff. split; intros [H1 H2]; split; try exact H2.
+  - intros ->. rewrite str_eqb_refl in H1. discriminate.
+  - apply str_eqb_neq. exact H1.
+Qed.
+
+Lemma check_modules_none_iff ms : forall seen,
+  check_modules seen ms = None <->
+  (forall m, In m ms -> mem_str (m_id m) seen = false /\ module_checks m = true) /\ NoDup (map m_id ms).
+Proof.
+  induction ms as [|m r IH]; intros seen.
+  - simpl. split; [intros _; split; [intros ? []|constructor]|reflexivity].
+  - cbn [check_modules]. unfold module_checks in *.
+    destruct (mem_str (m_id m) seen) eqn:Es.
+    { split; [discriminate|]. intros [H _]. destruct (H m (or_introl eq_refl)) as [X _]. congruence. }
+    destruct (mtype_eqb (m_type m) TSkill &&
+              match split_once 58 (m_id m) with Some (_, name) => negb (safe_skill_name name) | None => false end) eqn:E1.
+    { split; [discriminate|]. intros [H _]. destruct (H m (or_introl eq_refl)) as [_ X]. rewrite E1 in X. discriminate. }
+    destruct (forallb (fun t => mem_str t compiled_targets) (m_targets m)) eqn:E2; cbn [negb].
+    2:{ split; [discriminate|]. intros [H _]. destruct (H m (or_introl eq_refl)) as [_ X]. rewrite E1, E2 in X. discriminate. }
+    rewrite IH. split.
+    + intros [Hall Hnd]. split.
+      * intros m' [ <- |Hm']; [split; [exact Es|rewrite E1, E2; reflexivity]|].
+        destruct (Hall m' Hm') as [Hs Hc]. apply mem_str_cons_false in Hs as [_ Hs]. split; assumption.
+      * simpl. constructor; [|exact Hnd]. intros Hin. apply in_map_iff in Hin as [m' [Hid Hm']].
+        destruct (Hall m' Hm') as [Hs _]. apply mem_str_cons_false in Hs as [Hne _]. congruence.
+    + intros [Hall Hnd]. simpl in Hnd. inversion Hnd as [|? ? Hn Hnd']; subst. split; [|exact Hnd'].
+      intros m' Hm'. destruct (Hall m' (or_intror Hm')) as [Hs Hc]. split; [|exact Hc].
+      apply mem_str_cons_false. split; [|exact Hs]. intros E. apply Hn. rewrite <- E. apply in_map. exact Hm'.
+Qed.
+
+Lemma validate_manifest_perm c ms' : Permutation (c_modules c) ms' ->
+  validate_manifest c = None -> validate_manifest (with_modules c ms') = None.
+Proof.
+  intros Hp. unfold validate_manifest, with_modules, sorted_targets, find_profile. simpl.
+  destruct (negb (c_version c =? 1)); [discriminate|].
+  destruct (check_targets (isort name_leb (c_targets c))); [discriminate|].
+  destruct (find (fun p => str_eqb (p_name p) (s "default")) (c_profiles c)); [|discriminate].
+  rewrite !check_modules_none_iff. intros [Hall Hnd]. split.
+  - intros m Hm. apply Hall. eapply Permutation_in; [apply Permutation_sym; exact Hp|exact Hm].
+  - eapply Permutation_NoDup; [apply Permutation_map; exact Hp|exact Hnd].
+Qed.
+
+Lemma load_render_perm c ms' e prof filt : Permutation (c_modules c) ms' -> validate_manifest c = None ->
+  load_render (with_modules c ms') e prof filt = load_render c e prof filt.
+Proof.
+  intros Hp Hv. unfold load_render. rewrite Hv, (validate_manifest_perm c ms' Hp Hv).
+  apply plan_desired_perm; [exact Hp|apply validate_nodup; exact Hv].
+Qed.
+
+(* ---------- provenance: the ids carried by an insert are ids of selected modules ---------- *)
+
+Definition ids_from (ms : list module) (em : emit) : Prop :=
+  e_ids em <> [] /\ forall i, In i (e_ids em) -> exists m, In m ms /\ m_id m = i.
+
+Lemma collect_parts_ids l : forall parts, collect_parts l = Ok parts ->
+  forall p, In p parts -> exists m, In m l /\ m_id m = fst p.
+Proof.
+  induction l as [|m r IH]; intros parts H p Hp; simpl in H.
+  - inversion H; subst. destruct Hp.
+  - destruct (materialize m) as [fs|x]; [|discriminate].
+    destruct (find_file [agents_md] fs) as [f|].
+    + destruct (f_utf8 f); [|discriminate]. destruct (collect_parts r) as [ps|y] eqn:Er; [|discriminate].
+      inversion H; subst parts. destruct Hp as [ <- |Hp]; [exists m; split; [left; reflexivity|reflexivity]|].
+      destruct (IH ps eq_refl p Hp) as [m' [Hm' Hid]]. exists m'. split; [right; exact Hm'|exact Hid].
+    + destruct (IH parts H p Hp) as [m' [Hm' Hid]]. exists m'. split; [right; exact Hm'|exact Hid].
+Qed.
+
+Lemma agg_ids ms tn sep l parts dests em :
+  collect_parts l = Ok parts -> (forall m, In m l -> In m ms) ->
+  In (Emit em) (agg_steps tn sep parts dests) -> ids_from ms em.
+Proof.
+  intros Hc Hsub H. assert (Hne : parts <> []) by (intros ->; simpl in H; destruct H).
+  apply agg_steps_in in H as [d [_ ->]]. split; simpl.
+  - destruct parts; [congruence|discriminate].
+  - intros i Hi. apply in_map_iff in Hi as [p [Hp Hin]]. destruct (collect_parts_ids l parts Hc p Hin) as [m [Hm Hid]].
+    exists m. split; [apply Hsub; exact Hm|congruence].
+Qed.
+
+Lemma single_id ms m : In m ms -> forall em, e_ids em = [m_id m] -> ids_from ms em.
+Proof.
+  intros Hm em He. split; [rewrite He; discriminate|]. intros i Hi. rewrite He in Hi. destruct Hi as [ <- |[]].
+  exists m. split; [exact Hm|reflexivity].
+Qed.
+
+Lemma mods_for_sub t ty ms m : In m (mods_for t ty ms) -> In m ms.
+Proof. intros H. apply (mods_for_in t ty ms m H). Qed.
+
+Lemma adapter_ids e ms t em : In (Emit em) (snd (adapter e ms t)) -> ids_from ms em.
+Proof.
+  unfold adapter.
+  destruct (str_eqb (t_name t) t_codex).
+  { unfold codex_adapter. cbn [snd].
+    destruct (collect_parts (mods_for t_codex TInstructions ms)) as [parts|c] eqn:Ec; [|intros [H|[]]; discriminate].
+    intros H. apply in_app_or in H as [H|H]; [|apply in_app_or in H as [H|H]].
+    - eapply agg_ids; [exact Ec|apply mods_for_sub|exact H].
+    - apply in_flat_map in H as [m [Hm H]]. destruct (flag t (s "write_user_prompts") opt_codex_write_user_prompts); [|destruct H].
+      apply single_steps_in in H as [fs [f [d [_ [_ [_ ->]]]]]]. apply (single_id ms m (mods_for_sub _ _ _ _ Hm)). reflexivity.
+    - apply in_flat_map in H as [m [Hm H]].
+      apply skill_steps_in in H as [fs [f [d [_ [_ [_ ->]]]]]]. apply (single_id ms m (mods_for_sub _ _ _ _ Hm)). reflexivity. }
+  destruct (str_eqb (t_name t) t_claude).
+  { unfold claude_adapter. cbn [snd]. intros H. apply in_app_or in H as [H|H]; apply in_flat_map in H as [m [Hm H]].
+    - apply single_steps_in in H as [fs [f [d [_ [_ [_ ->]]]]]]. apply (single_id ms m (mods_for_sub _ _ _ _ Hm)). reflexivity.
+    - destruct (flag t (s "write_user_skills") opt_claude_code_write_user_skills || flag t (s "write_repo_skills") opt_claude_code_write_repo_skills); [|destruct H].
+      apply skill_steps_in in H as [fs [f [d [_ [_ [_ ->]]]]]]. apply (single_id ms m (mods_for_sub _ _ _ _ Hm)). reflexivity. }
+  destruct (str_eqb (t_name t) t_cursor).
+  { unfold cursor_adapter. cbn [snd]. intros H. apply in_flat_map in H as [m [Hm H]].
+    destruct (flag t (s "write_rules") opt_cursor_write_rules); [|destruct H].
+    unfold cursor_steps in H. destruct (materialize m) as [fs|c]; [|destruct H as [H|[]]; discriminate].
+    destruct (find_file [agents_md] fs) as [f|]; [|destruct H as [H|[]]; discriminate].
+    destruct H as [H|[]]. inversion H; subst em. apply (single_id ms m (mods_for_sub _ _ _ _ Hm)). reflexivity. }
+  destruct (str_eqb (t_name t) t_vscode).
+  { unfold vscode_adapter. cbn [snd].
+    destruct (collect_parts (mods_for t_vscode TInstructions ms)) as [parts|c] eqn:Ec; [|intros [H|[]]; discriminate].
+    intros H. apply in_app_or in H as [H|H].
+    - apply when_in in H as [_ H]. eapply agg_ids; [exact Ec|apply mods_for_sub|exact H].
+    - apply in_flat_map in H as [m [Hm H]]. destruct (flag t (s "write_prompts") opt_vscode_write_prompts); [|destruct H].
+      apply single_steps_in in H as [fs [f [d [_ [_ [_ ->]]]]]]. apply (single_id ms m (mods_for_sub _ _ _ _ Hm)). reflexivity. }
+  assert (Hsimple : forall tn w sep dir scan fname,
+             In (Emit em) (snd (simple_agg_adapter tn w sep dir scan fname ms)) -> ids_from ms em).
+  { intros tn w sep dir scan fname. unfold simple_agg_adapter. cbn [snd].
+    destruct (collect_parts (when w (mods_for tn TInstructions ms))) as [parts|c] eqn:Ec; [|intros [H|[]]; discriminate].
+    intros H. apply when_in in H as [_ H]. eapply agg_ids; [exact Ec| |exact H].
+    intros m Hm. apply when_in in Hm as [_ Hm]. apply (mods_for_sub _ _ _ _ Hm). }
+  destruct (str_eqb (t_name t) t_jetbrains); [apply Hsimple|].
+  destruct (str_eqb (t_name t) t_zed); [apply Hsimple|].
+  intros [].
+Qed.
